@@ -29,6 +29,9 @@ NEST_KINDS = {
     "text-tspan": ("<tspan>", "</tspan>"), "g-attrs": ('<g class="x" k="1">', "</g>"), "marker": ("<marker>", "</marker>"),
     "pattern": ("<pattern>", "</pattern>"), "mask": ("<mask>", "</mask>"), "switch": ("<switch>", "</switch>"), "unknown": ("<zzz>", "</zzz>"),
 }
+LEAVES = {"var": '<var a="1"/>', "var-open": '<var a="1"></var>', "config": '<config seed="3"/>', "text": "<text>x</text>", "circle": '<circle r="1"/>',
+          "line": '<line xy1="0" xy2="1"/>', "if-empty": '<if test="0"></if>', "loop-empty": '<loop count="0"></loop>', "g-empty": "<g/>", "defaults": '<defaults fill="red"/>',
+          "point": '<point xy="1 1"/>', "style": "<style>a{}</style>", "unknown": "<zzz/>", "var+var": '<var a="1"/><var b="2"/>', "config+var": '<config seed="3"/><var b="2"/>'}
 FLAT_KINDS = {
     "rect": '<rect xy="0 %d" wh="1"/>', "text-content": '<text xy="0 %d">t</text>', "rect-content": '<rect xy="0 %d" wh="2">label</rect>',
     "g": '<g><rect xy="0 %d" wh="1"/></g>', "defs": '<defs><rect xy="0 %d" wh="1"/></defs>', "svg": '<svg><rect xy="0 %d" wh="1"/></svg>',
@@ -162,6 +165,14 @@ def cases(ctx):
                         continue
                     k = D - 2
                     inner = o * k + '<rect wh="1"/>' + c * k
+                    if kind in ("g", "if", "loop", "unknown", "defs") and L <= 100:
+                        # the deepest element is an element of any kind: directives and empty containers count as a level too
+                        for leaf, ltxt in LEAVES.items():
+                            cfg, pre, how = limit_cfg(rng, "depth", L)
+                            if pre and L < 2:
+                                continue
+                            doc = "<svg>%s%s</svg>" % (pre, o * k + ltxt + c * k)
+                            out.append(dict(family="depth.%s/leaf.%s" % (kind, leaf), L=L, n=D, input=doc.encode(), cfg=cfg, accept=(D <= L), how=how))
                     if kind == "text-tspan":
                         if k < 1:
                             continue
